@@ -876,6 +876,9 @@ func (c *Compiler) compileString(node *ast.String) error {
 			}
 			err := c.compile(expr)
 			c.templatePosition = outer
+			// ... and the compiler is at the string again, not at the last
+			// node of the fragment
+			c.position = node.Token().StartPosition
 			if err != nil {
 				return err
 			}
